@@ -37,6 +37,9 @@ def check_case(run, ao, c):
         if c["tie"]:
             return "skipped"
         mask = _np_mask(c["mask"])
+        grey = len(c["th"]) == 3 and c["th"][2] == "grey"
+        if grey:
+            mask = mask / 2.0                     # values 0, 1, 2 of the model are transmissions 0, 1/2, 1
         M, S = c["M"], c["S"]
         th = c["th"][0] / c["th"][1]
         exp_coords = np.array([[x * (M / float(S)), y * (M / float(S))] for x, y in c["coords"]])
@@ -57,7 +60,7 @@ def check_case(run, ao, c):
                 ff = np.asarray(wfslib.computeFillFactor(mask.copy(), got2, M // S))
                 if ff.shape != fills.shape or not np.array_equal(ff, exp_fills):
                     bad.append(("subaps:fillfactor-agree", dict(got=ff.tolist(), expected=exp_fills.tolist())))
-            if not bad:
+            if not bad and not grey:
                 # masks are often boolean or integer arrays: same cells, same fills
                 for dt in (bool, np.int64):
                     gi, fi = wfslib.findActiveSubaps(S, mask.astype(dt), th, returnFill=True)
@@ -86,6 +89,14 @@ def check_case(run, ao, c):
             ok = ok and back.shape == data.shape and np.array_equal(back, data)
         if not ok:
             bad.append(("scatter:gather-identity", dict(got=np.asarray(got).tolist())))
+        else:
+            # the mask in another memory layout / dtype is the same mask
+            for label, mk in (("fortran-order", np.asfortranarray(mask)), ("transposed-view", np.ascontiguousarray(mask.T).T),
+                              ("reversed-view", np.ascontiguousarray(mask[::-1, ::-1])[::-1, ::-1]), ("boolean", mask.astype(bool)), ("int", mask.astype(np.int64))):
+                g2 = wfslib.make_subaps_2d(data.copy(), mk)
+                if np.asarray(g2).shape != got.shape or not np.array_equal(np.asarray(g2), got):
+                    bad.append(("scatter:gather-identity:mask-" + label, dict(got=np.asarray(g2).tolist())))
+                    break
     return bad
 
 
